@@ -109,6 +109,7 @@ MUTANTS = {
         ('discard_with_old_time', r'discard_all_summary\(&mut self\.receive_unreliable_channels, self\.current_time\);', 'discard_all_summary(&mut self.receive_unreliable_channels, Duration::ZERO);'),
     ],
     'U17': [
+        ('final_flush_labelled_with_channel_zero', r'channel_id: self\.channel_id,(\s+messages: std::mem::take\(&mut small_messages\),)', r'channel_id: 0,\1'),
         ('final_flush_dropped', r'if !small_messages\.is_empty\(\) \{', 'if false {'),
         ('flush_sequence_not_advanced', r'(messages: std::mem::take\(&mut small_messages\),\s*\}\);\s*)\*packet_sequence \+= 1;', r'\1'),
         ('early_return_leaks_budget', r'if self\.unacked_messages\.is_empty\(\) \{\s+return vec!\[\];', 'if self.unacked_messages.is_empty() { *available_bytes = 0; return vec![];'),
@@ -118,6 +119,7 @@ MUTANTS = {
         ('record_skips_first_id', r'messages\.iter\(\)\.map\(', 'messages.iter().skip(1).map('),
         ('slice_record_wrong_index', r'slice_index: slice\.slice_index,', 'slice_index: slice.slice_index / 2,'),
         ('record_filed_under_next_sequence', r'(Packet::SmallUnreliable \{ sequence, \.\. \} => \{\s+self\.sent_packets\.insert\(\s+)\*sequence,', r'\1*sequence + 1,'),
+        ('unreliable_channel_looked_up_under_another_id', r'self\.send_unreliable_channels\.get_mut\(channel_id\)\.unwrap\(\);', 'self.send_unreliable_channels.get_mut(&(*channel_id ^ 1)).unwrap();'),
         ('budget_doubled', r'let mut available_bytes = self\.available_bytes_per_tick;', 'let mut available_bytes = self.available_bytes_per_tick * 2;'),
         ('ack_sequence_not_advanced', r'self\.packet_sequence \+= 1;(\s+)packets\.push\(ack_packet\);', r'\1packets.push(ack_packet);'),
         ('buffer_too_small', r'let mut buffer = \[0u8; 1400\];', 'let mut buffer = [0u8; 1200];'),
@@ -150,6 +152,7 @@ MUTANTS = {
         ('first_range_inclusive_end', r'ack_ranges\.push\(first_range_start\.\.first_range_end \+ 1\);', 'ack_ranges.push(first_range_start..first_range_end);'),
     ],
     'U7': [
+        ('slice_labelled_with_channel_zero', r'(packets\.push\(Packet::UnreliableSlice \{\s+sequence: \*packet_sequence,\s+)channel_id: self\.channel_id,', r'\1channel_id: 0,'),
         ('budget_not_charged', r'\*available_bytes -= message\.len\(\) as u64;', ''),
         ('pack_threshold', r'if small_messages_bytes \+ serialized_size > SLICE_SIZE \{', 'if small_messages_bytes > SLICE_SIZE {'),
         ('memory_not_released', r'self\.memory_usage_bytes -= message\.len\(\);', ''),
